@@ -154,10 +154,15 @@ PROPS = {
                     "builder are persistent-arena allocations (Verus, unit cmd_store, region typing of eval_process_command_call_mut).  STORE SITES (Verus, unit "
                     "store_sites, extracted from src/runtime.rs): overwrite_slot for every value type, the new-slot branches of define_var / "
                     "define_bound_local, array push, assign_index's element store and shout's output record each store a value that went through "
-                    "Value::promote whenever a frame arena is active (the store shims' precondition), modulo promote's own contract."),
-        "not_covered": ("that every store site of the 1900-line evaluator goes through one of these primitives with the right mark (a whole-"
-                        "evaluator frame argument); arrays and host values (array storage read back from arena memory is outside CBMC's "
-                        "reach: > 5 min per harness); relocate_return_value; loop/call reset points. The defects found there (returning a host value; growing a "
+                    "Value::promote whenever a frame arena is active (the store shims' precondition).  RESIDENCE (Verus, unit residence: a four-region "
+                    "model Source/Pool/Persist/Frame over the real bodies of ArenaCow::clone, ArenaCow::promote, HostValue::clone_into, "
+                    "HostHandle::clone_into, HostHandle::promote, Value::promote and Value::clone_into, arrays and host values included, recursion "
+                    "and element loops with invariants): after promote nothing of the value is left in the frame arena and a borrowed result views "
+                    "only source text or persistent bytes; clone_into yields a value whose owned parts are all fresh allocations in the target arena "
+                    "and which holds no view of an owned string."),
+        "not_covered": ("that EVERY store site of the 1900-line evaluator goes through one of these primitives (six are decided, see store_sites); "
+                        "byte-level content of arrays and host values (the region model abstracts pointers to regions; byte contents are the Kani "
+                        "harnesses, strings only); relocate_return_value; parameter binding; loop/call reset points. The defects found there (returning a host value; growing a "
                         "parameter array inside a loop in the callee) were repaired (265c738, 0c46f42) but are not decided by an obligation."),
         "trusted_base": [KANI_TRUST, OS_TRUST, "PoolSet::{alloc_str, contains, dealloc} used through contract stubs whose clauses are proved for the real PoolSet under C12"],
     },
@@ -168,9 +173,10 @@ PROPS = {
                     "original (checked for frame-, persistent- and pool-resident strings, with the owner's storage recycled afterwards), "
                     "which is what array elements are cloned with; ArenaCow::promote gives stored elements their own slot (shared with C02).  "
                     "Elements stored by push and by index assignment are promoted copies whatever their type (Verus, unit store_sites: "
-                    "eval_array_member_call_mut, assign_index), so an element never shares frame storage with the expression that produced it."),
-        "not_covered": ("separation of the array storage itself (Vec buffers) under clone_into/promote (Value::promote's array arm is assumed "
-                        "by the store_sites unit), which variable an index chain resolves to (get_mutable_array / flatten_index_target), "
+                    "eval_array_member_call_mut, assign_index), so an element never shares frame storage with the expression that produced it; "
+                    "Value::clone_into and Value::promote rebuild an array's buffer in the target arena and every element recursively (Verus, unit "
+                    "residence, region model: fresh_in / outlives hold for the array storage and for each element)."),
+        "not_covered": ("byte-level separation of array buffers (the region model says WHICH arena a buffer lives in, not its address), which variable an index chain resolves to (get_mutable_array / flatten_index_target), "
                         "pop/reverse, call and return paths: values read back "
                         "from arena memory make CBMC explore every Value variant and do not terminate (> 5 min per harness)."),
         "trusted_base": [KANI_TRUST, OS_TRUST, "PoolSet contracts (C12)"],
